@@ -416,16 +416,29 @@ def run_history(ctx, ops, suite="K1.history"):
 def get_values_case(ctx, rng):
     fp = ctx.fp
     sw = new_sw(fp)
-    n = rng.randint(2, 6)
-    vals = [rng.choice([0, 1, 2, 3, 7]) for _ in range(n)]
+    n = rng.randint(2, 8)
+    vals = rng.sample(range(0, 60), n) if rng.random() < 0.8 else [rng.choice([0, 1, 2, 3, 7]) for _ in range(n)]
     keys = [(f"k{i}", i) for i in range(n)]
     vs = sw.add_variables(keys, "g", vals, vals, "integer")
     sw.set_objective(sw.quicksum([vs[k] for k in keys]))
     sw.optimize()
-    sub = rng.sample(keys, rng.randint(1, n))
+    mode = rng.choice(["sample", "sample", "block-inner-shuffled", "block-reversed", "gaps-in-order", "all-shuffled"])
+    if mode == "sample":
+        sub = rng.sample(keys, rng.randint(1, n))
+    elif mode in ("block-inner-shuffled", "block-reversed"):
+        a = rng.randrange(0, n); b = rng.randrange(a, n)
+        sub = keys[a:b + 1]
+        if mode == "block-reversed":
+            sub = sub[::-1]
+        elif len(sub) > 2:                       # first and last column stay where they are, the inner ones are permuted
+            inner = sub[1:-1]; rng.shuffle(inner); sub = [sub[0]] + inner + [sub[-1]]
+    elif mode == "gaps-in-order":
+        sub = [k for k in keys if rng.random() < 0.6] or [keys[0]]
+    else:
+        sub = list(keys); rng.shuffle(sub)
     got = sw.get_values({k: vs[k] for k in sub})
     want = {k: vals[keys.index(k)] for k in sub}
-    ctx.rep.count("K1.get_values", [vals, sub], nontrivial=True, hist=["get_values"])
+    ctx.rep.count("K1.get_values", [vals, sub], nontrivial=True, hist=["get_values", "selection:" + mode])
     ctx.rep.cov["oracle_evaluations"] += 1
     if set(got) != set(want) or any(abs(got[k] - want[k]) > 1e-9 for k in want):
         ctx.violation(f"get_values returned {got} for variables fixed to {want}", {"values": vals, "asked": sub, "got": {str(k): v for k, v in got.items()}},
@@ -479,7 +492,7 @@ def run(ctx):
         inp, real = run_history(ctx, ops)
         if it == 0:
             ctx.rep.sample({"history": ops, "columns_after": real})
-    for _ in range(ctx.n(40, 400)):
+    for _ in range(ctx.n(120, 1200)):
         get_values_case(ctx, rng)
 
 
